@@ -1877,13 +1877,14 @@ impl Merger {
     fn not_all_null(
         batch: &RecordBatch,
         col_offset: usize,
-        num_cols: usize,
+        key_cols: &[usize],
     ) -> Result<BooleanArray> {
         // For our purposes we know there is always at least 1 on key
-        debug_assert_ne!(num_cols, 0);
-        let mut at_least_one_valid = arrow::compute::is_not_null(batch.column(col_offset))?;
-        for idx in col_offset + 1..col_offset + num_cols {
-            let is_valid = arrow::compute::is_not_null(batch.column(idx))?;
+        debug_assert!(!key_cols.is_empty());
+        let mut at_least_one_valid =
+            arrow::compute::is_not_null(batch.column(col_offset + key_cols[0]))?;
+        for idx in &key_cols[1..] {
+            let is_valid = arrow::compute::is_not_null(batch.column(col_offset + idx))?;
             at_least_one_valid = arrow::compute::or(&at_least_one_valid, &is_valid)?;
         }
         Ok(at_least_one_valid)
@@ -1908,10 +1909,17 @@ impl Merger {
         &self,
         combined_batch: &RecordBatch,
         right_offset: usize,
-        num_keys: usize,
     ) -> Result<(BooleanArray, BooleanArray, BooleanArray)> {
-        let in_left = Self::not_all_null(combined_batch, 0, num_keys)?;
-        let in_right = Self::not_all_null(combined_batch, right_offset, num_keys)?;
+        // The key columns sit where the source schema has them (not necessarily first),
+        // at the same positions in both halves of the joined batch.
+        let key_cols = self
+            .params
+            .on
+            .iter()
+            .map(|key| self.schema.index_of(key))
+            .collect::<std::result::Result<Vec<_>, _>>()?;
+        let in_left = Self::not_all_null(combined_batch, 0, &key_cols)?;
+        let in_right = Self::not_all_null(combined_batch, right_offset, &key_cols)?;
         let in_both = arrow::compute::and(&in_left, &in_right)?;
         let left_only = arrow::compute::and(&in_left, &arrow::compute::not(&in_right)?)?;
         let right_only = arrow::compute::and(&arrow::compute::not(&in_left)?, &in_right)?;
@@ -1944,14 +1952,12 @@ impl Merger {
             (num_fields - 2, Some(num_fields - 1), (num_fields - 2) / 2)
         };
 
-        let num_keys = self.params.on.len();
-
         let left_cols = Vec::from_iter(0..right_offset);
         let right_cols_with_id = Vec::from_iter(right_offset..num_fields);
 
         let mut batches = Vec::with_capacity(2);
         let (left_only, in_both, right_only) =
-            self.extract_selections(&batch, right_offset, num_keys)?;
+            self.extract_selections(&batch, right_offset)?;
 
         // There is no contention on this mutex.  We're only using it to bypass the rust
         // borrow checker (the stream needs to be `sync` since it crosses an await point)
